@@ -33,8 +33,12 @@ MonNext ==
     /\ l' = l + 1
     /\ UNCHANGED <<src, prohibit, lastErr, verify, lr, wk, vt, rd, nalter, nverify>>
     /\ toc' = IF Ev.ev = "Reset" THEN Ev.toc ELSE toc
+    /\ fscfg' = IF Ev.ev = "Reset" THEN (IF Has("fscfg") THEN Ev.fscfg ELSE "--") ELSE fscfg
     /\ okArgs' = IF Ev.ev = "Reset" THEN {}
-                 ELSE IF IsVerifyEv /\ Ev.res = "ok" THEN okArgs \cup {Ev.d} ELSE okArgs
+                 ELSE IF IsVerifyEv /\ Ev.res = "ok" THEN okArgs \cup {Ev.d}
+                 \* a filesystem.Mount that was given a TOC digest label and returned success (unless disable_verification)
+                 ELSE IF Ev.ev = "Mount" /\ Ev.res = "ok" /\ Ev.tl # "none" /\ ~DisableVerif THEN okArgs \cup {Ev.tl}
+                 ELSE okArgs
     /\ served' = IF Ev.ev = "Reset" THEN {}
                  ELSE IF IsReadEv /\ Ev.res = "ok" /\ vmount THEN served \cup ReadVals ELSE served
     /\ cache' = IF Ev.ev = "Reset" THEN [c \in Chunks |-> "-"] ELSE IF Has("cache") THEN AsFun(Ev.cache) ELSE cache
